@@ -593,6 +593,15 @@ DoExc(m) ==
            [] OTHER -> [m0 EXCEPT !.k = Pop(@)]       \* ho, ast
 
 (***************************************************************************)
+(* Names occurring in a tree (property C18: what list_names must report)   *)
+(***************************************************************************)
+RECURSIVE TreeNames(_)
+TreeNames(t) ==
+    (IF t.k \in {"name", "call", "assign", "short"} THEN {t.name} ELSE {})
+    \cup (IF t.k = "lambda" THEN {t.params[i] : i \in 1..Len(t.params)} \ {"?"} ELSE {})
+    \cup (IF "ch" \in DOMAIN t THEN UNION {TreeNames(t.ch[i]) : i \in 1..Len(t.ch)} ELSE {})
+
+(***************************************************************************)
 (* The transition function                                                 *)
 (***************************************************************************)
 StepKind(m) ==
